@@ -10,8 +10,9 @@ CONSTANTS
   CPUs,         \* cpuset values are SUBSET CPUs
   LimitVals,    \* limit values, e.g. {1, 2, 3, 99}
   Kinds,        \* subset of {"cpuset", "limit"}
-  Algos,        \* subset of {"leveled", "suppress"}
-  CacheMode     \* "cold": no entry | "coldwarm": none or all files remembered | "subsets": any subset of files remembered
+  Algos,        \* subset of {"leveled", "suppress", "recover"} (the last two alternate freely inside one behaviour)
+  CacheMode,    \* "cold": no entry | "coldwarm": none or all files remembered | "subsets": any subset of files remembered
+  ExternalSteps \* BOOLEAN: may the environment replace the file contents between two rewrites
 
 MaxDepth == 3
 
@@ -35,7 +36,7 @@ MCInit ==
   \E p \in AllTrees, k \in Kinds, a \in Algos :
     \E o \in ValidAssign(p, k) :
       \E c \in CacheStarts(p, k, o) :
-        /\ a = "suppress" => k = "cpuset"
+        /\ a \in {"suppress", "recover"} => k = "cpuset"
         /\ algo = a
         /\ par = p /\ kind = k
         /\ val = o /\ old = o /\ target = o /\ written = {} /\ phase = "idle"
@@ -43,12 +44,15 @@ MCInit ==
 
 MCNext ==
   \/ /\ pc = <<"idle">> /\ rewrites < MaxRewrites          \* (guards first: TLC enumerates the quantifier before IBegin's own guards)
-     /\ \E t \in ValidAssign(par, kind) :
-          \E e \in (IF rewrites = 0 THEN {{}} ELSE SUBSET Nodes) : IBegin(t, e)
+     /\ \E t \in ValidAssign(par, kind), a \in Algos :
+          \E e \in (IF rewrites = 0 THEN {{}} ELSE SUBSET Nodes) : IBegin(t, e, a)
+  \/ /\ pc = <<"idle">> /\ rewrites >= 1 /\ rewrites < MaxRewrites /\ ExternalSteps    \* between two rewrites
+     /\ \E x \in ValidAssign(par, kind) : x # val /\ IExternal(x)
   \/ IMerge
   \/ IExact
   \/ SWiden
   \/ SNarrow
+  \/ SCover
   \/ IDone
 
 MCSpec == MCInit /\ [][MCNext]_vars
